@@ -34,6 +34,28 @@ PROPS = {
              'kinds x every child subset x scope labellings over two variables (+ id shift/clash/gap and weight-count '
              'corruptions on a subsample); random valid circuits x nine single structural corruptions; every entry point called '
              'on invalid circuits; non-trivial = more than one node; distinct = distinct node table',
+    ),    'C12': dict(
+        module='c12',
+        modules=['DeeprobModel.Props.Clt'],
+        theorems=['Deeprob.Clt.pc_eval', 'Deeprob.Clt.pc_valid', 'Deeprob.Clt.toPc_eval', 'Deeprob.Clt.pc_structured',
+                  'Deeprob.Clt.get_scopes_spec', 'Deeprob.Clt.pc_deterministic', 'Deeprob.Clt.up_marg', 'Deeprob.Clt.root_rows_needed'],
+        fragments=[],
+        rule='every predecessor vector (rooted spanning tree) over <= 4 (quick) / 6 (thorough) variables, each with random tables '
+             'and permuted non-contiguous scope labels, plus random larger trees; every complete and marginal query (3^n) for '
+             'n <= 5; non-trivial = at least two variables; distinct = distinct (tree, labelling)',
+    ),    'C11': dict(
+        module='c11',
+        modules=['DeeprobModel.Props.C11'],
+        theorems=['Deeprob.C11.counts_incl_excl', 'Deeprob.C11.priors_sum_one', 'Deeprob.C11.joints_marginal',
+                  'Deeprob.C11.cpt_is_smoothed_conditional', 'Deeprob.C11.cpt_root_is_smoothed_prior', 'Deeprob.C11.cpt_rows_sum_one',
+                  'Deeprob.C11.cpt_pos', 'Deeprob.C11.isRootedSpanningTree_sound', 'Deeprob.C11.cycleOK_sound',
+                  'Deeprob.C11.cycleOK_max', 'Deeprob.C11.cycleOK_max_simpleGraph', 'Deeprob.C11.mstBrute_sound',
+                  'Deeprob.C11.fit_tree_maximal', 'Deeprob.C11.clt_normalised', 'Deeprob.C11.fit_normalised'],
+        fragments=[],
+        rule='binary data sets of eight families (random, constant columns, duplicated / negated columns, fewer rows than '
+             'variables, chain-dependent, sparse, identical rows) x 1-7 variables x 1-40 rows x four smoothing constants x '
+             'explicit and random roots x identity and shuffled scope labels; non-trivial = at least two variables; distinct = '
+             'distinct (data, alpha, scope, root request)',
     ),
 }
 
